@@ -85,6 +85,17 @@ def bounded_cases(ctx: Ctx):
                     if c["method"] == "cohorts":
                         c["method"] = "map-reduce"
                 cases.append(c)
+    # deep trees: many unit blocks per group, so that the reduction tree has three or more levels for small fan-ins (and two or
+    # more for the default): a tree that is one level short, or partitions blocks wrongly, only shows with >= 5 blocks for
+    # split_every=2, >= 10 for 3, >= 17 for 4 (added after seeded change C02-tree-depth-by-integer-floor-division was missed)
+    for n_ in (5, 7, 10, 17) if ctx.quick else (5, 6, 7, 9, 10, 11, 17, 19, 26):
+        labs = [np.array([0, 1] * n_)[:n_], np.zeros(n_, dtype=int), np.array([0] * (n_ - 2) + [1, 0])]
+        vals = np.arange(1.0, n_ + 1.0) ** 2
+        for func in ("sum", "nanmax", "argmax", "nanmean", "count", "first", "nanvar"):
+            for lab in labs:
+                i += 1
+                c = dict(array=enc(vals), by=[enc(lab)], func=func, chunks=[[1] * n_], method=["map-reduce", "cohorts"][i % 2], reindex=None, split_every={5: 2, 7: 2, 6: 2, 9: 2, 10: 3, 11: 3, 17: 4, 19: 4, 26: 5}[n_])
+                cases.append(c)
     return cases
 
 
@@ -102,7 +113,7 @@ def run(ctx: Ctx):
         cases = bounded_cases(ctx)
         run_bounded(
             ctx, "C02.rtc.chunked_equals_eager", FUNCTION, cases, "vlib.props.C02:check",
-            bound=f"1-D arrays of length {4 if ctx.quick else 6}; all compositions as chunkings ({'5 sampled per pattern' if ctx.quick else 'all'}); methods None/map-reduce/cohorts/blockwise(precondition checked); reindex None/True/False; labels numpy or dask; split_every 2..4; 23 chunkable reductions",
+            bound=f"1-D arrays of length {4 if ctx.quick else 6}; all compositions as chunkings ({'5 sampled per pattern' if ctx.quick else 'all'}); methods None/map-reduce/cohorts/blockwise(precondition checked); reindex None/True/False; labels numpy or dask; split_every 2..4; 23 chunkable reductions; deep trees: 5-17 (26) unit blocks with the fan-in that needs one more level than floor division gives",
             rule="case = (reduction, dtype, label pattern, values, chunking, method, reindex, label kind, engine, split_every); non-trivial = >=2 blocks and >=2 distinct labels",
             nontrivial=nontrivial,
         )
